@@ -287,7 +287,11 @@ class top_conv(Conv):
                 if body_pt.is_reflexive():
                     return pt
                 else:
-                    return pt.transitive(body_pt.abstraction(v))
+                    # As in abs_conv: fail if the bound variable cannot be abstracted
+                    try:
+                        return pt.transitive(body_pt.abstraction(v))
+                    except InvalidDerivationException:
+                        raise ConvException("top_conv")
             else:
                 return pt
 
@@ -318,7 +322,11 @@ class top_sweep_conv(Conv):
                 if body_pt.is_reflexive():
                     return pt
                 else:
-                    return body_pt.abstraction(v)
+                    # As in abs_conv: fail if the bound variable cannot be abstracted
+                    try:
+                        return body_pt.abstraction(v)
+                    except InvalidDerivationException:
+                        raise ConvException("top_sweep_conv")
             else:
                 return pt
 
